@@ -265,7 +265,15 @@ def tag_sweep(tier, shard, nshards):
         i += 1
 
 
+def catalogue_cases(tier, shard, nshards):
+    return wire.catalogue_frames()[shard::nshards]
+
+
 COMPONENTS = [
+    Component('catalogue', check_frame, cases=catalogue_cases, nontrivial=nontrivial,
+              classes=classes, shards={'quick': 4, 'thorough': 4}, exhaustive=True,
+              describe='one wire frame per method class with all 19 tags in every '
+                       'table argument; two content headers; body; heartbeat; protocol'),
     Component('tag-ranges', check_value, cases=tag_sweep, nontrivial=nontrivial,
               classes=classes, shards={'quick': 8, 'thorough': 8},
               describe='every 8/16-bit value of tags t b B s u; boundaries of I i l L T'),
